@@ -900,8 +900,8 @@ func init() {
 	register(&Rule{ID: "C11.holders", Floor: 6,
 		Text: "the per-view state holders embedded in MemFS (current directory, current user, umask) keep their state in their own fields: their methods neither store to a package-level variable nor read one that some function writes, so a setter called on one view cannot reach another view or the parent",
 		Run:  c11Holders})
-	register(&Rule{ID: "C16.pool", Floor: 1,
-		Text: "a buffer taken from the copy pool is owned by the function that took it until it puts it back: no function that (directly or by defer) returns a buffer to a sync.Pool also returns that buffer, or anything derived from it, to its caller - the copy would run on a buffer another copy may be using",
+	register(&Rule{ID: "C16.pool", Floor: 1, Also: []string{"C08"},
+		Text: "a buffer taken from the copy pool is owned by the function that took it until it puts it back: no function that (directly or by defer) returns a buffer to a sync.Pool also returns that buffer, or anything derived from it, to its caller, and a Put that is not deferred is not followed by a use of the buffer - the copy would run on a buffer another copy may be using",
 		Run:  c16Pool})
 }
 
@@ -1418,6 +1418,27 @@ func c16Pool(rc *RuleCtx) {
 					}
 				}
 			}
+			// a Put that is not deferred must come after the last use of the buffer
+			early := false
+			if _, isDefer := p.(*ssa.Defer); !isDefer {
+				eachInstr(f, func(in ssa.Instruction) {
+					if in == ssa.Instruction(p) || early {
+						return
+					}
+					if _, isDbg := in.(*ssa.DebugRef); isDbg {
+						return
+					}
+					for _, op := range in.Operands(nil) {
+						if op != nil && *op != nil && derives(*op) && instrReaches(p, in) {
+							early = true
+						}
+					}
+				})
+			}
+			if early {
+				rc.bad(cons, p.Pos(), "the buffer is given back to the pool before its last use in this function (the Put is not deferred and a use of the buffer follows it): the next Get hands the same array to a concurrent copy while this one still reads and writes it")
+				continue
+			}
 			if bad {
 				rc.bad(cons, p.Pos(), "the function gives the buffer back to the pool (on return) and also hands it to its caller: the caller works on a buffer that the next Get can hand to a concurrent copy, whose bytes then end up in this destination")
 			} else {
@@ -1431,7 +1452,8 @@ func c16Pool(rc *RuleCtx) {
 }
 
 func init() {
-	register(&Rule{ID: "C01.cwd", Floor: 6, Also: []string{"C07", "C11", "C17", "C03", "C04"},
+	register(&Rule{ID: "C01.cwd", Floor: 6, Also: []string{"C07", "C11", "C17", "C03", "C04", "C02"},
+		AlsoOnly: map[string][]string{"C02": {"File).Chdir"}}, AlsoFloor: map[string]int{"C02": 2},
 		Text: "a fresh MemFS / OrefaFS has a working directory: the constructor calls SetCurDir with the root of the default volume (a non-empty constant, or the volume name followed by the separator) - with an empty working directory a relative path is not made absolute, the walk skips its first byte (Mkdir(\"foo\") creates /oo) and Stat(\"\") panics; every other SetCurDir of the two packages (Chdir of the file system and of an open directory) hands over an absolute path: Path() of the walk's iterator, the first result of Abs, or a handle field assigned only such values - never the name a handle was opened with, nor an index key",
 		Run:  c01Cwd})
 }
@@ -2321,7 +2343,17 @@ func c10Root(rc *RuleCtx) {
 			rc.bad(cons, f.Pos(), "the call is not forwarded to the base file system")
 			continue
 		}
-		arg := callArgs(fwd)[0]
+		args := callArgs(fwd)
+		if name == "Rename" && len(args) > 1 {
+			// the destination as well: the base path is never handed over as the name to replace
+			c10RootArg(rc, f, fwd, args[1], cons+" (destination)", name)
+		}
+		c10RootArg(rc, f, fwd, args[0], cons, name)
+	}
+}
+
+func c10RootArg(rc *RuleCtx, f *ssa.Function, fwd ssa.CallInstruction, arg ssa.Value, cons, name string) {
+	{
 		ok := false
 		for _, fa := range factsAt(fwd.Block()) {
 			c, truth := normCond(fa.Cond, fa.Truth)
